@@ -353,4 +353,3 @@ func putFiles(d string, files [][]byte, base int) {
 		}
 	}
 }
-
